@@ -598,6 +598,9 @@ class C15(Check):
             self.reach.add(PM.computechi2.__dict__[n].fget, 'math.computechi2.' + n)
         for n in ('coefficients', 'derived', 'variance', 'eigenvalues'):
             self.reach.add(PC.pcomp.__dict__[n].fget, 'pcomp.pcomp.' + n)
+        self.brd.per_case = 3
+        self.brd.attach(self.rec, PM.computechi2, '__init__', label='computechi2.__init__', init=True, every=2)   # vlib/brd.py
+        self.brd.attach(self.rec, PC.pcomp, '__init__', label='pcomp.__init__', init=True, every=2)
         self.rec.wrap(S1, 'pca_solve')
         self._saved = install_contracts(H)
         self.margins = {}
